@@ -235,6 +235,7 @@ KERNEL_DOC = {
     "solve_tril": "x = solve_tril(A,b,trans): requires diag(A) != 0 (inherited); ensures op(tril(A)) x = b",
     "solve_lu": "x = solve_lu(A,b): requires A invertible (inherited); ensures A x = b",
     "lstsq_svd": "x = lstsq_svd(H,r): ensures H^T H x = H^T r and x = H^T z (minimum norm, ghost z)",
+    "ghost_inverse": "V = ghost_inverse(A) (specification only): requires A invertible (inherited); ensures V A = I and A V = I",
     "hypot": "h = hypot(a,b): h >= 0 and h^2 = a^2 + b^2",
     "normal": "random.normal(key, shape): fresh real symbols xi (one per entry and call)",
     "rademacher": "random.rademacher(key, shape): fresh symbols v with v^2 = 1",
@@ -369,6 +370,34 @@ def lstsq_row_space_witness(H, r):
     return bind_opaque("lstsq_z", [H, r], [jax.ShapeDtypeStruct((m,) + tuple(jnp.shape(r)[1:]), jnp.result_type(float))], static=())[0]
 
 
+def k_ghost_inverse(ctx, prm, A):
+    """Ghost (specification only): a two-sided inverse V of the square matrix A.  Its existence is a
+    kernel-precondition obligation (inherited by the contract that uses it: 'A is non-singular')."""
+    n = A.shape[0]
+    cid = _count("ghost_inverse")
+    A = A if interp.is_obj(A) else interp.to_obj(A)
+    X, sids = fresh_array((n, n), f"Vinv{cid}")
+    ctx.oblige_bool(f"ghost_inverse#{cid}.invertible", P.B("opaque-invertible"), side="kernel-precondition")
+    for i in range(n):
+        for j in range(n):
+            left, right = P.ZERO, P.ZERO
+            for l in range(n):
+                left = left + X[i, l] * A[l, j]
+                right = right + A[i, l] * X[l, j]
+            one = P.ONE_V if i == j else P.ZERO
+            ctx.assume_eq(f"ghost_inverse#{cid}.left[{i},{j}]", left - one)
+            ctx.assume_eq(f"ghost_inverse#{cid}.right[{i},{j}]", right - one)
+    CALL_LOG.append({"name": "ghost_inverse", "operands": [A], "out_sids": [sids], "native": lambda a: [np.linalg.inv(np.asarray(a))]})
+    return [X]
+
+
+def ghost_inverse(A):
+    if not MODE.symbolic:
+        return jnp.linalg.inv(A)
+    n = A.shape[0]
+    return bind_opaque("ghost_inverse", [A], [jax.ShapeDtypeStruct((n, n), jnp.result_type(float))], static=())[0]
+
+
 class _FakeEqn:
     def __init__(self, contract, batch):
         self.params = {"dimension_numbers": (contract, batch)}
@@ -420,6 +449,7 @@ BASE_HANDLERS.update(
         "solve_lu": k_solve_lu,
         "lstsq_svd": k_lstsq_svd,
         "lstsq_z": k_lstsq_z,
+        "ghost_inverse": k_ghost_inverse,
         "hypot": k_hypot,
         "prng_key": k_prng_key,
         "split": k_split,
